@@ -2,48 +2,46 @@
    enumerations, cardinalities - preserved along every model run whose mints are fresh. *)
 From Coq Require Import Permutation.
 From SC Require Import Lib.Prelude Lib.Int Lib.Host Model.Nft Run.NftCommon Proofs.NftMaps Proofs.NftFrame
-  Proofs.NftInv Proofs.NftCons Proofs.NftOwn Proofs.NftSim Proofs.NftCard Proofs.NftEnum Run.C10 Proofs.C10Card.
+  Proofs.NftInv Proofs.NftCons Proofs.NftOwn Proofs.NftSim Proofs.NftScope Proofs.NftCard Proofs.NftEnum Run.C10 Proofs.C10Card.
 Local Open Scope N_scope.
-
-(* the quantifier of the property: explicit ids are fresh, and the sequential counter does not run
-   into an explicitly minted id *)
-Definition fresh_ok (fl : flavour) (c : cfg) (s : state) (cl : call) : bool :=
-  match fl with
-  | FCons => true      (* only batch minting: nothing to require *)
-  | _ =>
-      match cl with
-      | MintSeq _ => is_none (owner_of fl c s (next_id s))
-      | MintId _ id => is_none (owner_of fl c s id)
-      | _ => true
-      end
-  end.
 
 Lemma oaddr_eqb_refl' a : oaddr_eqb a a = true.
 Proof. destruct a; cbn; [apply N.eqb_refl | reflexivity]. Qed.
 
-(* what the model did is legal in the eyes of the C10 monitor *)
-Lemma c10_legal_model fl c s g cl s' r :
-  Sim fl s g -> fresh_ok fl c s cl = true -> exec fl c s cl = Ok (s', r) -> c10_legal g cl (Ok r) = true.
+(* facts about what the model did (used by the cardinality argument) *)
+Lemma legal0_model fl c s g cl s' r :
+  Sim fl s g -> fresh_ok fl c s cl = true -> exec fl c s cl = Ok (s', r) -> legal0 g cl (Ok r) = true.
 Proof.
   intros [Hc Ho] Hf He. pose proof (own_of fl c s g Ho) as Hown. pose proof He as He0. apply exec_ok in He.
   destruct Hc as ((Hn&Hx)&_).
-  destruct cl; cbn [exec_spec] in He; cbn [c10_legal fresh_ok] in *; try reflexivity.
+  destruct cl; cbn [exec_spec] in He; cbn [legal0 fresh_ok] in *; try reflexivity.
   - destruct He as (Hfl&->&_). rewrite <- Hx, N.leb_refl, <- Hown.
     unfold fresh_ok in Hf. destruct fl; try exact Hf. exfalso; apply Hfl; reflexivity.
   - destruct He as (Hfl&_). rewrite <- Hown.
     unfold fresh_ok in Hf. destruct fl; try exact Hf. exfalso; apply Hfl; reflexivity.
   - destruct He as (->&Hz&_&_&->&_). rewrite <- Hx.
-    assert (Hnone : forall j, next_id s <= j -> rget (g_own g) j = None).
-    { intros j Hj. rewrite <- Hown. cbn [owner_of]. cbn [OwnInv] in Ho.
-      rewrite (cons_owner_of_cown c s j (proj1 Ho)). unfold cown.
-      destruct (j <? next_id s) eqn:E; [apply N.ltb_lt in E; lia | reflexivity]. }
     replace (next_id s + amount - 1 + 1 - amount) with (next_id s) by lia.
-    rewrite (Hnone (next_id s)) by lia. rewrite (Hnone (next_id s + amount - 1)) by lia.
-    cbn [is_none]. rewrite N.leb_refl, !andb_true_r. apply andb_true_iff. split; apply N.leb_le; lia.
+    rewrite N.leb_refl, andb_true_r. apply andb_true_iff. split; apply N.leb_le; lia.
   - destruct He as (_&Hw&_). rewrite <- Hown, Hw. apply oaddr_eqb_refl'.
   - destruct He as (_&_&Hw&_). rewrite <- Hown, Hw. apply oaddr_eqb_refl'.
   - destruct He as (_&Hw&_). rewrite <- Hown, Hw. apply oaddr_eqb_refl'.
   - destruct He as (_&_&Hw&_). rewrite <- Hown, Hw. apply oaddr_eqb_refl'.
+Qed.
+
+(* what the model did is legal in the eyes of the C10 monitor (no side condition) *)
+Lemma c10_legal_model fl c s g cl s' r :
+  Sim fl s g -> exec fl c s cl = Ok (s', r) -> c10_legal g cl (Ok r) = true.
+Proof.
+  intros [Hc Ho] He. pose proof (own_of fl c s g Ho) as Hown. apply exec_ok in He.
+  destruct cl; cbn [exec_spec] in He; cbn [c10_legal]; try reflexivity.
+  - destruct He as (_&->). reflexivity.
+  - destruct He as (_&->&_). reflexivity.
+  - destruct He as (_&Hw&->&_). rewrite <- Hown, Hw. apply oaddr_eqb_refl'.
+  - destruct He as (_&_&Hw&->&_). rewrite <- Hown, Hw. apply oaddr_eqb_refl'.
+  - destruct He as (_&Hw&->&_). rewrite <- Hown, Hw. apply oaddr_eqb_refl'.
+  - destruct He as (_&_&Hw&->&_). rewrite <- Hown, Hw. apply oaddr_eqb_refl'.
+  - destruct He as (_&->&_). reflexivity.
+  - destruct He as (_&->&_). reflexivity.
 Qed.
 
 (* total supply of the enumerable flavour *)
@@ -143,7 +141,7 @@ Lemma sim10_step fl c s g cl s' r :
   Sim10 fl s' (ghost_step g cl (Ok r)).
 Proof.
   intros (Hs&Hcard&Hen&Hto) Hf He.
-  pose proof (c10_legal_model fl c s g cl s' r Hs Hf He) as Hleg.
+  pose proof (legal0_model fl c s g cl s' r Hs Hf He) as Hleg.
   pose proof Hs as [Hc Ho]. pose proof (own_of fl c s g Ho) as Hown.
   split; [|split; [|split]].
   - split; [eapply core_step; [exact Hc | apply exec_ok; exact He] | eapply own_step; eassumption].
